@@ -686,3 +686,258 @@ def check_bounded_buffers(ctx: Context, rep, rule: str) -> None:
                    f"positive capacity (lower bound here: {lb}; 0 or less "
                    "means unbounded read-ahead)")
     rep.info(rule, f"{n} buffer construction(s) in the iteration modules")
+
+
+# ---------------------------------------------------------------------------
+PURE_CALLS = {"isinstance", "issubclass", "len", "all", "any", "callable",
+              "hasattr", "getattr", "min", "max", "sum", "sorted", "tuple",
+              "list", "set", "frozenset", "dict", "str", "int", "float", "bool",
+              "type", "abs", "repr", "id", "range", "zip", "enumerate", "Path"}
+PURE_METHODS = {"startswith", "endswith", "keys", "values", "items", "get",
+                "is_file", "is_dir", "exists", "is_absolute", "is_relative_to",
+                "count", "index", "lower", "upper", "strip", "split", "join",
+                "resolve", "isdigit", "issubset", "issuperset", "isdisjoint",
+                "copy", "cache_info"}
+
+
+def _returns_literal(fn: FunctionInfo, ctx: Context | None = None,
+                    depth: int = 0) -> bool:
+    """A function without effects of its own: abstract / empty, or a single
+    `return` of a literal expression (calls only to functions of the same
+    kind)."""
+    if isinstance(fn.node, ast.Lambda) or depth > 3:
+        return False
+    body = [s for s in fn.node.body if not (isinstance(s, ast.Expr) and
+                                            isinstance(s.value, ast.Constant))]
+    body = [s for s in body if not isinstance(s, ast.Pass)]
+    if not body:
+        return True
+    if len(body) == 1 and isinstance(body[0], ast.Raise):
+        return True
+    if len(body) != 1 or not isinstance(body[0], ast.Return) or \
+            body[0].value is None:
+        return False
+    for x in ast.walk(body[0].value):
+        if isinstance(x, ast.Call):
+            tg = ctx.internal_targets(fn, x) if ctx is not None else []
+            if not tg or not all(_returns_literal(t, ctx, depth + 1)
+                                 for t in tg):
+                return False
+        elif isinstance(x, (ast.Await, ast.Yield, ast.YieldFrom, ast.NamedExpr,
+                            ast.Lambda)):
+            return False
+    return True
+
+
+def check_assert_pure(ctx: Context, rep, rule: str,
+                      modules: tuple[str, ...] = ("sedpack.io", )) -> None:
+    """`assert` statements disappear under `python -O`: an assert whose
+    condition or message performs work the program relies on (enters a
+    context, pulls from an iterator, sends, pops, writes, closes ...) makes
+    the behaviour depend on the interpreter flags."""
+    rep.rule(
+        rule,
+        "no assert statement of sedpack.io contains a call other than the "
+        "frozen list of pure builtins / query methods (asserts vanish under "
+        "python -O; a call that the program needs must not live in one)")
+    n = 0
+    for fn in ctx.repo.all_functions():
+        if not fn.module.name.startswith(modules) or \
+                "flatbuffer.shardfile" in fn.module.name:
+            continue
+        for a in fn.body_nodes():
+            if not isinstance(a, ast.Assert):
+                continue
+            n += 1
+            bad = []
+            for x in ast.walk(a):
+                if isinstance(x, (ast.NamedExpr, ast.Await, ast.Yield,
+                                  ast.YieldFrom)):
+                    bad.append(x)
+                if not isinstance(x, ast.Call):
+                    continue
+                f = x.func
+                name = f.id if isinstance(f, ast.Name) else (
+                    f.attr if isinstance(f, ast.Attribute) else None)
+                pure = (isinstance(f, ast.Name) and name in PURE_CALLS) or (
+                    isinstance(f, ast.Attribute) and name in PURE_METHODS)
+                if not pure:
+                    # an internal function that only returns a literal value
+                    tg = ctx.internal_targets(fn, x)
+                    if tg and all(_returns_literal(t, ctx) for t in tg):
+                        pure = True
+                if not pure:
+                    bad.append(x)
+            rep.ob(rule, not bad, loc=fn.loc(a), where=fn.qualname,
+                   construct=short(a, 80) if bad else "assert without effects",
+                   message="an assert performs work that is needed when "
+                   "assertions are disabled: " + (short(bad[0], 50) if bad
+                                                  else ""), sample=False)
+    rep.info(rule, f"{n} assert statement(s) inspected")
+
+
+# ---------------------------------------------------------------------------
+LOG_METHODS = {"debug", "info", "warning", "warn", "error", "exception",
+               "critical", "log"}
+CONSUMERS = {"next", "list", "tuple", "set", "sorted", "sum", "max", "min",
+             "any", "all", "dict", "frozenset", "deque", "Counter"}
+WRAPPERS = {"islice", "iter", "enumerate", "zip", "map", "filter", "chain",
+            "takewhile", "dropwhile", "reversed"}
+
+
+def check_log_args_pure(ctx: Context, rep, rule: str) -> None:
+    """Diagnostics do not eat data: an argument of a logging call (or print)
+    must not pull from a stream that the function goes on to use."""
+    from sa.valuation import single_defs
+    rep.rule(
+        rule,
+        "no argument of a logging / print call in sedpack.io applies a "
+        "consumer (next, list, sum, a comprehension ...; through islice / "
+        "iter / zip wrappers) to a variable that is not provably a concrete "
+        "collection (bound once to a display, a comprehension or list / "
+        "sorted / tuple / set / dict of something): previewing a one-shot "
+        "iterator in a log line removes the previewed items from the stream")
+    n = 0
+    for fn in ctx.repo.all_functions():
+        if not fn.module.name.startswith("sedpack.io") or isinstance(
+                fn.node, ast.Lambda):
+            continue
+        defs = None
+
+        def concrete(name: str) -> bool:
+            nonlocal defs
+            if defs is None:
+                defs = single_defs(fn)
+            v = defs.get(name)
+            if v is None:
+                return False
+            if isinstance(v, (ast.List, ast.Tuple, ast.Set, ast.Dict,
+                              ast.ListComp, ast.SetComp, ast.DictComp,
+                              ast.Constant, ast.JoinedStr)):
+                return True
+            return isinstance(v, ast.Call) and isinstance(
+                v.func, ast.Name) and v.func.id in (
+                    "list", "sorted", "tuple", "set", "dict", "frozenset",
+                    "len", "str", "int")
+
+        def operand_names(e) -> list[str]:
+            """Names a consumer's operand pulls from (through wrappers)."""
+            if isinstance(e, ast.Name):
+                return [e.id]
+            if isinstance(e, ast.Call):
+                nm = (dotted(e.func) or "").rsplit(".", 1)[-1]
+                if nm in WRAPPERS and e.args:
+                    out = []
+                    for a in e.args[:1] if nm in ("islice", "iter",
+                                                  "enumerate", "reversed") \
+                            else e.args:
+                        out += operand_names(a)
+                    return out
+            if isinstance(e, (ast.GeneratorExp, ast.ListComp, ast.SetComp,
+                              ast.DictComp)):
+                out = []
+                for g in e.generators:
+                    out += operand_names(g.iter)
+                return out
+            return []
+
+        for c in fn.calls():
+            f = c.func
+            is_log = (isinstance(f, ast.Attribute) and f.attr in LOG_METHODS
+                      and "log" in (dotted(f.value) or "").lower()) or (
+                          isinstance(f, ast.Name) and f.id == "print")
+            if not is_log:
+                continue
+            n += 1
+            bad = []
+            for a in list(c.args) + [k.value for k in c.keywords]:
+                for x in ast.walk(a):
+                    names: list[str] = []
+                    if isinstance(x, ast.Call):
+                        nm = (dotted(x.func) or "").rsplit(".", 1)[-1]
+                        if nm in CONSUMERS and x.args:
+                            names = operand_names(x.args[0])
+                        elif isinstance(x.func, ast.Attribute) and \
+                                x.func.attr in ("pop", "popleft", "get_nowait",
+                                                "__next__", "send", "read",
+                                                "readline"):
+                            names = operand_names(x.func.value)
+                    elif isinstance(x, (ast.ListComp, ast.SetComp,
+                                        ast.DictComp, ast.GeneratorExp)):
+                        names = operand_names(x)
+                    bad += [(x, nm_) for nm_ in names if not concrete(nm_)]
+            rep.ob(rule, not bad, loc=fn.loc(c), where=fn.qualname,
+                   construct=(f"log argument consumes `{bad[0][1]}`: " +
+                              short(bad[0][0], 50)) if bad else short(c, 60),
+                   message="a diagnostic pulls items out of a stream the "
+                   "function still needs", sample=False)
+    rep.info(rule, f"{n} logging call(s) inspected")
+
+
+# ---------------------------------------------------------------------------
+def check_no_shared_class_state(ctx: Context, rep, rule: str) -> None:
+    """A mutable container bound in a class body is one object shared by all
+    instances; pydantic models copy their defaults, plain classes do not."""
+    rep.rule(
+        rule,
+        "no plain (non-pydantic, non-dataclass-field) class of sedpack.io "
+        "binds a mutable container ({} / [] / set() / dict() / list() / "
+        "defaultdict(..) / deque()) in its class body that its methods then "
+        "mutate through self: two live instances (two open shards, two "
+        "pools) would share it")
+    n = 0
+    for mod in ctx.repo.hand_written():
+        if not mod.name.startswith("sedpack.io") or \
+                "flatbuffer.shardfile" in mod.name:
+            continue
+        for ci in mod.classes.values():
+            bases = {(dotted(b) or "").rsplit(".", 1)[-1]
+                     for b in ci.node.bases}
+            if "BaseModel" in bases or any(
+                    "BaseModel" in (dotted(b) or "") for c2 in ctx.repo.mro(ci)
+                    for b in c2.node.bases):
+                continue
+            n += 1
+            for st in ci.node.body:
+                t = v = None
+                if isinstance(st, ast.Assign) and len(st.targets) == 1 and \
+                        isinstance(st.targets[0], ast.Name):
+                    t, v = st.targets[0].id, st.value
+                elif isinstance(st, ast.AnnAssign) and isinstance(
+                        st.target, ast.Name) and st.value is not None:
+                    t, v = st.target.id, st.value
+                if t is None:
+                    continue
+                mutable = isinstance(v, (ast.Dict, ast.List, ast.Set,
+                                         ast.ListComp, ast.DictComp,
+                                         ast.SetComp)) or (
+                    isinstance(v, ast.Call) and (dotted(v.func) or "").rsplit(
+                        ".", 1)[-1] in ("dict", "list", "set", "defaultdict",
+                                        "deque", "OrderedDict", "Counter",
+                                        "bytearray"))
+                if not mutable:
+                    continue
+                # rebound per instance in __init__ ? then the class value is
+                # only a default nobody mutates
+                init = ci.methods.get("__init__")
+                rebound = init is not None and any(
+                    isinstance(x, ast.Attribute) and x.attr == t and
+                    isinstance(x.ctx, ast.Store) and dotted(x.value) == "self"
+                    for x in ast.walk(init.node))
+                mutated = any(
+                    (isinstance(x, ast.Call) and isinstance(
+                        x.func, ast.Attribute) and x.func.attr in (
+                            "append", "extend", "add", "update", "clear",
+                            "pop", "setdefault", "insert", "remove",
+                            "appendleft", "popleft") and dotted(
+                                x.func.value) in (f"self.{t}", f"cls.{t}")) or
+                    (isinstance(x, ast.Subscript) and isinstance(
+                        x.ctx, (ast.Store, ast.Del)) and dotted(x.value) in (
+                            f"self.{t}", f"cls.{t}"))
+                    for m in ci.methods.values() for x in ast.walk(m.node))
+                rep.ob(rule, rebound or not mutated,
+                       loc=f"{mod.relpath}:{st.lineno}", where=ci.name,
+                       construct=short(st, 60),
+                       message="class-level mutable container mutated "
+                       "through self: shared by every instance")
+    rep.info(rule, f"{n} plain class(es) inspected")
